@@ -232,6 +232,10 @@ def s3(chk: Check, proj: Project, m, cls) -> None:
     ok = len(ins) == 1 and bool(cap) and all(cfg.dominates(cap[0], n, dom) for n in cfg.nodes_of(ins[0]))
     chk.ob("S3", "util.cache:LRUCache.set:capacity-test-dominates-insert", m.loc(ins[0]) if ins else m.loc(f), ok, "`self.cache[key] = new_node` is dominated by `len(self.cache) >= self.maxsize`" if ok else "a new key can be inserted without the capacity test: the cache exceeds its bound")
     if cap:
+        miss = any((not pol) and t == "key in self.cache" for t, pol in cond_atoms(cap[0].meta.get("owner")))
+        chk.ob("S3", "util.cache:LRUCache.set:evicts-only-for-new-keys", m.loc(cap[0].meta.get("owner")), miss,
+               "the capacity test (and eviction) is on the miss path only" if miss else
+               "the eviction runs before / regardless of the `key in self.cache` test: overwriting a key that is already cached in a full cache evicts the least recently used entry although no room is needed")
         owner = cap[0].meta.get("owner")
         body = owner.body if isinstance(owner, ast.If) else []
         vic = [s for s in body if isinstance(s, ast.Assign) and norm(s.value) == "self.tail.prev"]
